@@ -119,13 +119,23 @@ Definition mapstructure_view (c : cfg_val) : option (bool * bool) :=
   | VPtrToString | VPtrToNilPtr | VPtrToPtrToString => Some (true, false)
   | VPlain => Some (false, false)
   end.
-(* if f.Kind() == reflect.Ptr { data = reflect.ValueOf(data).Elem().Interface() } *)
+(* Original: if f.Kind() == reflect.Ptr { data = reflect.ValueOf(data).Elem().Interface() }
+   Fixed:    the same, but only when f.Elem().Kind() == reflect.String *)
 Definition decode_string_ptr (is_ptr is_nil : bool) : mout :=
   if is_ptr && is_nil then MPanic else MAny.
-Definition config_decode_val (c : cfg_val) : mout :=
-  match mapstructure_view c with
-  | None => MAny
-  | Some (p, n) => decode_string_ptr p n
+(* [typed_target]: the destination field is numeric, bool, a duration or a struct — the
+   mapstructure decoders that call reflect.Value.Type on the (indirected) input. A pointer to a
+   nil pointer is not nil itself, so mapstructure hands it to the hook; the Original hook strips
+   one level and returns a typed nil pointer, on which those decoders panic; the Fixed hook leaves
+   it alone and mapstructure reports "unconvertible type". *)
+Definition config_decode_val (v : variant) (c : cfg_val) (typed_target : bool) : mout :=
+  match c with
+  | VPtrToNilPtr => if is_fixed v then MAny else if typed_target then MPanic else MAny
+  | _ =>
+      match mapstructure_view c with
+      | None => MAny
+      | Some (p, n) => decode_string_ptr p n
+      end
   end.
 
 (* ------------------------------------------------------------------------------------ *)
